@@ -21,6 +21,7 @@ import AcnProofs.Lemmas.SortedSimInd
 import AcnProofs.Lemmas.SortedSchedSafe
 import AcnProofs.Lemmas.SortedRdSafe
 import AcnProofs.Lemmas.SortedRdNoEst
+import AcnProofs.Lemmas.SortedEst
 
 set_option linter.unusedSectionVars false
 
@@ -212,29 +213,30 @@ theorem le_remaining_rr [HasCeilNat K] (feas : List K → Bool) (infra : Infra K
     unfold rrUb at this
     simpa using this
 
-/-- `le_estimator_bound`: after `run_preprocessing` with an estimator, every session's max rate is
-    at most the estimator's bound stored under THAT SESSION's id (the repaired lookup of finding
+/-- `le_estimator_bound`: after `run_preprocessing` with the (rampdown) estimator, every session's max
+    rate is at most the estimator's bound stored under THAT SESSION's id (the repaired lookup of finding
     F6), unless its lower bound (the uninterrupted-charging minimum pilot) is larger.  Together with
-    `le_remaining_*` (`r ≤ max lb (min max_rate …)`) the pilot obeys `r ≤ max bound lb`. -/
+    `le_remaining_*` (`r ≤ max lb (min max_rate …)`) the pilot obeys `r ≤ max bound lb`.
+    NO hypothesis on the bounds in the estimator's dict (an earlier version asked for `0 ≤` every
+    bound): negative bounds, bounds above the EVSE maximum, anything.  The same for an ARBITRARY
+    estimator is `le_estimator_bound_any_estimator` (`AcnProofs/C07Est.lean`). -/
 theorem le_estimator_bound (feas : List K → Bool) (cfg : Config K) (infra : Infra K) (period : K)
     (prev : String → Option (K × K)) (rd : Rampdown K) (l : List (Session K))
-    (hest : cfg.estimate = true)
-    (hb0 : ∀ p ∈ (preprocess feas cfg infra period prev rd l).2.bounds, 0 ≤ p.2) :
+    (hest : cfg.estimate = true) :
     ∀ s ∈ (preprocess feas cfg infra period prev rd l).1, ∀ b,
       (preprocess feas cfg infra period prev rd l).2.bounds.lookup s.session = some b →
       s.maxRate ≤ max b (lbOf s) := by
-  unfold preprocess at hb0 ⊢
-  simp only [hest, if_true] at hb0 ⊢
+  unfold preprocess
+  simp only [hest, if_true]
   intro s hs b hb
-  have hb0' : 0 ≤ b := hb0 (s.session, b) (lookup_mem _ _ _ hb)
   have hlb : s.minRate ≤ lbOf s := by unfold lbOf; simp
   split at hs
   · -- uninterrupted charging on top
     obtain ⟨s1, hs1, hrel⟩ := forall₂_mem_right (applyMinimumRate_rel feas infra period _) s hs
     rw [mem_sortBy] at hs1
     have hsid := minRel_session infra period s1 s hrel
-    obtain ⟨_, hle⟩ := minRel_le infra period s1 s b hrel
-      (applyUpperBound_le _ _ s1 hs1 b (by rw [← hsid]; exact hb)) hb0'
+    have hle := minRel_le_any infra period s1 s b hrel
+      (applyUpperBound_le _ _ s1 hs1 b (by rw [← hsid]; exact hb))
     exact le_trans hle (max_le_max (le_refl _) hlb)
   · exact le_trans (applyUpperBound_le _ _ s hs b hb) (max_le_max (le_refl _) hlb)
 
